@@ -16,6 +16,7 @@ package llrp
 // One JSON request line = one scenario; one JSON answer line = everything observed.
 
 import (
+	"bytes"
 	"context"
 	"crypto/md5"
 	"crypto/sha256"
@@ -42,6 +43,18 @@ type c04Frame struct {
 	K       int    `json:"k"`     // bytes the handler (if one is called) tries to read
 	Panic   bool   `json:"panic"` // ... and then panics
 	PKind   string `json:"pkind"` // with what: string (default) | error | index | nilmap | nilderef | typeassert | divzero | int | struct
+	// how the handler consumes the payload: "" = io.ReadFull of K bytes from msg.payload;
+	// "data" = msg.data() (the buffering path); "unmarshal" = msg.UnmarshalTo(v);
+	// "readall" = io.ReadAll(msg.payload); "copy" = io.Copy(buf, msg.payload); "close" = msg.Close()
+	Mode string `json:"mode"`
+}
+
+// verifCapture is a BinaryUnmarshaler that keeps the bytes it is given.
+type verifCapture struct{ b []byte }
+
+func (v *verifCapture) UnmarshalBinary(data []byte) error {
+	v.b = append([]byte(nil), data...)
+	return nil
 }
 
 type c04Step struct {
@@ -49,9 +62,10 @@ type c04Step struct {
 	Caller  int        `json:"caller"`
 	Typ     int        `json:"typ"`
 	Frames  []c04Frame `json:"frames"`
-	Seg     string     `json:"seg"` // "whole" | "byte" | "rand"
+	Seg     string     `json:"seg"` // "whole" | "byte" | "rand" | "fixed" (SegMax bytes each) | "cuts" (at SegCuts)
 	SegSeed int64      `json:"segseed"`
 	SegMax  int        `json:"segmax"`
+	SegCuts []int      `json:"segcuts"` // seg = "cuts": offsets into the chunk at which a new segment starts
 	Raw     string     `json:"raw"` // hex, written as is, not waited for
 }
 
@@ -197,11 +211,9 @@ func (h c04Handler) HandleMessage(_ *Client, msg Message) {
 	}
 	o.mu.Unlock()
 	obs := c04HandlerObs{Who: h.who, Hdr: hdr4(msg.Header), Panic: b.Panic, Err: "nil"}
-	buf := make([]byte, b.K)
+	buf := make([]byte, 0)
 	n := 0
-	if b.K > 0 {
-		var err error
-		n, err = io.ReadFull(msg.payload, buf)
+	note := func(err error) {
 		switch {
 		case err == nil:
 		case errors.Is(err, io.ErrUnexpectedEOF):
@@ -210,6 +222,36 @@ func (h c04Handler) HandleMessage(_ *Client, msg Message) {
 			obs.Err = "eof"
 		default:
 			obs.Err = "other"
+		}
+	}
+	switch b.Mode {
+	case "data":
+		m := msg
+		d, err := m.data()
+		note(err)
+		buf, n = d, len(d)
+	case "unmarshal":
+		m := msg
+		v := &verifCapture{}
+		note(m.UnmarshalTo(v))
+		buf, n = v.b, len(v.b)
+	case "readall":
+		d, err := io.ReadAll(msg.payload)
+		note(err)
+		buf, n = d, len(d)
+	case "copy":
+		var bb bytes.Buffer
+		_, err := io.Copy(&bb, msg.payload)
+		note(err)
+		buf, n = bb.Bytes(), bb.Len()
+	case "close":
+		note(msg.Close())
+	default:
+		buf = make([]byte, b.K)
+		if b.K > 0 {
+			var err error
+			n, err = io.ReadFull(msg.payload, buf)
+			note(err)
 		}
 	}
 	obs.NRead = n
@@ -267,8 +309,40 @@ func errClass(err error) string {
 	return "other"
 }
 
+// writeCuts writes data in segments that start at the given offsets.
+func writeCuts(w io.Writer, data []byte, cuts []int) error {
+	prev := 0
+	for _, c := range append(append([]int(nil), cuts...), len(data)) {
+		if c > len(data) {
+			c = len(data)
+		}
+		if c <= prev {
+			continue
+		}
+		if _, err := w.Write(data[prev:c]); err != nil {
+			return err
+		}
+		prev = c
+	}
+	return nil
+}
+
 func writeSegments(w io.Writer, data []byte, seg string, seed int64, segmax int) error {
 	switch seg {
+	case "fixed":
+		if segmax <= 0 {
+			segmax = 1460
+		}
+		for len(data) > 0 {
+			n := segmax
+			if n > len(data) {
+				n = len(data)
+			}
+			if _, err := w.Write(data[:n]); err != nil {
+				return err
+			}
+			data = data[n:]
+		}
 	case "byte":
 		for i := range data {
 			if _, err := w.Write(data[i : i+1]); err != nil {
@@ -457,7 +531,13 @@ stepLoop:
 				data = append(data, peerFrame(f.Rsv, f.Ver, f.Typ, id, verifPayload(f.Pseed, f.Plen))...)
 			}
 			werr := make(chan error, 1)
-			go func() { werr <- writeSegments(peer, data, st.Seg, st.SegSeed, st.SegMax) }()
+			go func(st c04Step) {
+				if st.Seg == "cuts" {
+					werr <- writeCuts(peer, data, st.SegCuts)
+					return
+				}
+				werr <- writeSegments(peer, data, st.Seg, st.SegSeed, st.SegMax)
+			}(st)
 			select {
 			case err := <-werr:
 				if err != nil {
